@@ -59,11 +59,32 @@ func runC20(c *Ctx) {
 					}
 					nst++
 					how := ""
+					// the index may be a parameter of the goroutine's function literal: `go func(rep R, slot int){…}(reps[i].entity, reps[i].index)`
+					idx := ia.Index
+					if prm, isP := an.Strip(idx).(*ssa.Parameter); isP && fn.Parent() != nil {
+						if arg, elem := goArgOf(fn, prm); arg != nil {
+							// the representation handed to the same goroutine must come from the same element
+							same := false
+							for _, other := range fn.Params {
+								if other == prm {
+									continue
+								}
+								if _, e2 := goArgOf(fn, other); e2 != nil && elem != nil && sameElemAddr(e2, elem) {
+									same = true
+								}
+							}
+							if same {
+								idx = arg
+							}
+						}
+					}
 					// rep.index (value field or field address load)
-					if fld, ok := ia.Index.(*ssa.Field); ok && fieldName2(fld) == "index" {
+					if fld, ok := idx.(*ssa.Field); ok && fieldName2(fld) == "index" {
 						how = "rep.index"
 					}
-					if fa, ok := loadAddr(ia.Index).(*ssa.FieldAddr); ok && fieldNameOf(fa) == "index" {
+					if fa, ok := loadAddr(idx).(*ssa.FieldAddr); ok && fieldNameOf(fa) == "index" && idx != ia.Index {
+						how = "rep.index"
+					} else if fa, ok := loadAddr(ia.Index).(*ssa.FieldAddr); ok && fieldNameOf(fa) == "index" {
 						how = "rep.index"
 						if ia2, ok := fa.X.(*ssa.IndexAddr); ok {
 							// reps[i].index with i the range index over the resolver result
@@ -195,7 +216,31 @@ func runC20(c *Ctx) {
 					if fn != top {
 						d = recoverDeferBefore(fn, in)
 					}
-					c.R.Check(d != nil, pfx+top.Name()+"/entity-resolver-call", c.ipos(in), "own recover registered first", "an entity resolver runs on a spawned goroutine without a recover in its own function: a panic kills the process and the other representations' answers")
+					covered := d != nil
+					if !covered && fn == top {
+						// a per-entity helper (`resolveEntity_Hello`): every synchronous static call site of it lies in a
+						// function that registered its own recover first, and it is never started with go/defer
+						sites := 0
+						covered = true
+						for _, caller := range c.genFuncs(g) {
+							for _, cb := range caller.Blocks {
+								for _, ci := range cb.Instrs {
+									cc, isCall := ci.(ssa.CallInstruction)
+									if !isCall || cc.Common().StaticCallee() != top {
+										continue
+									}
+									sites++
+									if _, sync := ci.(*ssa.Call); !sync || recoverDeferBefore(caller, ci) == nil {
+										covered = false
+									}
+								}
+							}
+						}
+						if sites == 0 {
+							covered = false
+						}
+					}
+					c.R.Check(covered, pfx+top.Name()+"/entity-resolver-call", c.ipos(in), "own recover registered first", "an entity resolver runs on a spawned goroutine without a recover in its own function: a panic kills the process and the other representations' answers")
 				}
 			}
 		}
@@ -450,4 +495,51 @@ func c20BatchPositional(c *Ctx, feds []*GenPkg) {
 	if n == 0 {
 		c.R.Note("resolveManyEntities/batch", "-", "no materialised federation configuration has a multi entity resolver; nothing to judge")
 	}
+}
+
+// goArgOf: fn is a function literal started by a go statement of its parent; returns the argument bound to parameter p and,
+// when that argument is a field of a slice element (reps[i].f), the element's address.
+func goArgOf(fn *ssa.Function, p *ssa.Parameter) (ssa.Value, ssa.Value) {
+	k := -1
+	for i, q := range fn.Params {
+		if q == p {
+			k = i
+		}
+	}
+	if k < 0 || fn.Parent() == nil {
+		return nil, nil
+	}
+	for _, b := range fn.Parent().Blocks {
+		for _, in := range b.Instrs {
+			g, ok := in.(*ssa.Go)
+			if !ok {
+				continue
+			}
+			mc, ok := g.Call.Value.(*ssa.MakeClosure)
+			if !ok || mc.Fn != fn || k >= len(g.Call.Args) {
+				continue
+			}
+			arg := g.Call.Args[k]
+			var elem ssa.Value
+			if fa, ok := loadAddr(an.Strip(arg)).(*ssa.FieldAddr); ok {
+				elem = fa.X
+			}
+			if fld, ok := an.Strip(arg).(*ssa.Field); ok {
+				if u, ok := fld.X.(*ssa.UnOp); ok {
+					elem = u.X
+				}
+			}
+			return arg, elem
+		}
+	}
+	return nil, nil
+}
+
+func sameElemAddr(a, b ssa.Value) bool {
+	if a == b {
+		return true
+	}
+	ia, ok1 := a.(*ssa.IndexAddr)
+	ib, ok2 := b.(*ssa.IndexAddr)
+	return ok1 && ok2 && (ia.X == ib.X || an.SameVar(ia.X, ib.X)) && (ia.Index == ib.Index || an.SameExpr(ia.Index, ib.Index))
 }
